@@ -155,10 +155,73 @@ def alias_consts(raw, known, log):
             log.append("constant %s presented as %s" % (cands[0], name))
 
 
+def erase_newtypes(raw, known, log):
+    """a private single-field struct that the pinned tree does not have (`struct NodeHash(u64)`, `struct LockState(i64)`) is a name for
+    its field: projections into it are dropped, building it is a copy, and locals of that type have the field's type"""
+    new = {}
+    droppers = set()
+    imps = raw.get("impls", {})
+    for io in (imps.values() if isinstance(imps, dict) else imps):
+        if isinstance(io, dict) and str(io.get("trait", "")).endswith("ops::Drop"):
+            droppers.add(io.get("self_head"))
+    for b in raw["bodies"]:
+        if (b.get("impl") or {}).get("trait", "").endswith("ops::Drop"):
+            droppers.add(b["impl"].get("self_head"))
+    for adt, d in raw["adts"].items():
+        if adt in known["adts"] or d.get("kind") != "struct" or len(d["variants"]) != 1 or len(d["variants"][0]["fields"]) != 1:
+            continue
+        if adt.startswith(("std::", "core::", "alloc::")):
+            continue
+        if adt in droppers:
+            continue          # a type with its own Drop is more than a name for its field (an RAII handle)
+        new[adt] = d["variants"][0]["fields"][0][1]
+    if not new:
+        return
+    used = set()
+
+    def fix_place(pl):
+        pr = pl.get("proj")
+        if not pr:
+            return
+        out = [e for e in pr if not (isinstance(e, dict) and "field" in e and e.get("of") in new)]
+        if len(out) != len(pr):
+            used.update(e["of"] for e in pr if isinstance(e, dict) and e.get("of") in new)
+            pl["proj"] = out
+
+    def walk(o):
+        if isinstance(o, dict):
+            if "local" in o and "proj" in o:
+                fix_place(o)
+            if "agg" in o and isinstance(o["agg"], dict) and o["agg"].get("adt") in new and len(o.get("ops", [])) == 1:
+                used.add(o["agg"]["adt"])
+                op = o["ops"][0]
+                del o["agg"]
+                del o["ops"]
+                o["use"] = op
+            for v in list(o.values()):
+                walk(v)
+        elif isinstance(o, list):
+            for x in o:
+                walk(x)
+    for b in raw["bodies"]:
+        walk(b["blocks"])
+        walk(b.get("debug_places", []))
+        for i, l in enumerate(b["locals"]):
+            base = l.get("base")
+            if base in new and l.get("refs", 0) == 0:
+                ft = new[base]
+                nm = l.get("name")
+                b["locals"][i] = {"s": ft, "head": ft, "base": ft, "refs": 0}
+                if nm:
+                    b["locals"][i]["name"] = nm
+    for a in sorted(used):
+        log.append("private newtype %s presented as its field (%s)" % (a, new[a]))
+
+
 def normalise(raw):
     known = known_items()
     log = []
-    for f in (permute_params, rename_fields, alias_consts):
+    for f in (permute_params, rename_fields, alias_consts, erase_newtypes):
         try:
             f(raw, known, log)
         except Exception as e:      # a normalisation that cannot be applied leaves the facts as they are
